@@ -146,6 +146,10 @@ func runSession(l SL) Result {
 	}
 	tl := AsList(l[9])
 	op, ta, tb := AsInt(tl[0]), AsInt(tl[1]), AsInt(tl[2])
+	okLen := func(n int) bool { return n == 16 || n == 24 || n == 32 }
+	if !okLen(len(aesK)) || !okLen(len(macK)) {
+		panic("hxlib: AES/MAC secret of invalid length (not a session InitWithSecrets accepts)")
+	}
 
 	sEnd, pIn := net.Pipe()
 	pOut, rEnd := net.Pipe()
@@ -203,6 +207,9 @@ func runSession(l SL) Result {
 	wantErr := []int{1}   // admissible terminal error classes
 	switch op {
 	case 1:
+		if tb&0xff == 0 || ta >= len(wire) {
+			panic("hxlib: tamper modifies nothing")
+		}
 		w2 = append([]byte{}, wire...)
 		if ta < len(w2) {
 			w2[ta] ^= byte(tb)
@@ -231,6 +238,9 @@ func runSession(l SL) Result {
 		}
 		wantErr = []int{1, 2}
 	case 3:
+		if ta >= len(frames) || tb >= len(frames) {
+			panic("hxlib: frame index out of range")
+		}
 		fs := append([][]byte{}, frames...)
 		fs[ta], fs[tb] = fs[tb], fs[ta]
 		w2 = cat(fs)
@@ -239,6 +249,9 @@ func runSession(l SL) Result {
 			wantErr = []int{4, 5}
 		}
 	case 4:
+		if ta >= len(frames) {
+			panic("hxlib: frame index out of range")
+		}
 		fs := append(append([][]byte{}, frames[:ta]...), frames[ta+1:]...)
 		w2 = cat(fs)
 		intact = ta
@@ -246,6 +259,9 @@ func runSession(l SL) Result {
 			wantErr = []int{4, 5}
 		}
 	case 5:
+		if ta >= len(frames) {
+			panic("hxlib: frame index out of range")
+		}
 		fs := append(append(append([][]byte{}, frames[:ta+1]...), frames[ta]), frames[ta+1:]...)
 		w2 = cat(fs)
 		intact = ta + 1
@@ -543,6 +559,9 @@ func runHandshake(l SL) Result {
 		}
 	}
 	mask := byte(AsInt(l[10]))
+	if (region == 0 || region == 1) && mask == 0 {
+		panic("hxlib: tamper with a zero mask modifies nothing")
+	}
 	kI, kR := keyFrom(r), keyFrom(r)
 
 	iW, p0in := net.Pipe()
@@ -609,7 +628,7 @@ func runHandshake(l SL) Result {
 	switch region {
 	case 0:
 		if pd[dir].tamperedAt < 0 {
-			fails = append(fails, "harness: handshake tamper was not applied")
+			panic("hxlib: handshake tamper was not applied")
 		}
 		if dir == 0 && hsR {
 			fails = append(fails, "recipient accepted a modified auth packet")
@@ -637,7 +656,7 @@ func runHandshake(l SL) Result {
 		nIR, nRI := len(msgsI), len(msgsR)
 		if region == 1 {
 			if pd[dir].tamperedAt < 0 {
-				fails = append(fails, "harness: frame tamper was not applied")
+				panic("hxlib: frame tamper offset beyond the frame stream")
 			}
 			// frames entirely before the modified byte
 			ms := msgsI
